@@ -55,6 +55,9 @@ func newFootprintFromFont(f *font.Font, location Location, md font.Description) 
 	out.Langs = newLangsetFromCoverage(out.Runes)
 	out.Family = font.NormalizeFamily(md.Family)
 	out.Aspect = md.Aspect
+	// unspecified fields default to regular values, as for scanned fonts:
+	// the matching functions expect every footprint to have a valid aspect
+	out.Aspect.SetDefaults()
 	out.Location = location
 	out.isUserProvided = true
 	return out
